@@ -393,6 +393,7 @@ def main():
     t0 = time.time()
     seed = int(os.environ.get('VERIF_SEED', '20260930'))
     mod = importlib.import_module('props.%s' % pid)
+    rid = getattr(mod, 'PROPERTY', pid)   # id used in VIOLATION / KNOWN-FINDING lines (sub-checks report their property)
     rng = random.Random('%s/%s' % (seed, pid))
     findings = load_findings(pid)
 
@@ -407,7 +408,7 @@ def main():
         fail = mod.oracle(case, obs)
         print(json.dumps(dict(case=case, impl=obs, oracle=fail), indent=1, default=repr))
         if fail:
-            print('VIOLATION property=%s replay=%s' % (pid, args.replay))
+            print('VIOLATION property=%s replay=%s' % (rid, args.replay))
             return 1
         return 0
 
@@ -512,7 +513,7 @@ def main():
     lines = []
     rc = 0
     for fid, (e, r) in sorted(known_hits.items()):
-        lines.append('KNOWN-FINDING: property=%s %s (%s)' % (pid, e['what'], fid))
+        lines.append('KNOWN-FINDING: property=%s %s (%s)' % (rid, e['what'], fid))
     stale = [e['id'] for e in findings if e['id'] not in known_hits and e.get('reproduce', True)]
     for s in stale:
         log('note: known finding %s did not reproduce in this run' % s)
@@ -536,7 +537,7 @@ def main():
             p = write_replay(pid, dict(property=pid, case=small, impl=obs, oracle=mod.oracle(small, obs),
                                        seed=seed, tier=args.tier,
                                        broken=cb['errors'][:3], original_case=r['case']))
-            lines.append('VIOLATION property=%s replay=%s' % (pid, p))
+            lines.append('VIOLATION property=%s replay=%s' % (rid, p))
             n_viol += 1
         rc = 1
     elif not (proofs_ok and corr_ok and vm_ok):
@@ -551,7 +552,7 @@ def main():
                                    disagreement=(dict(case=unexplained_dis[0]['case'], impl=unexplained_dis[0]['impl'],
                                                       model=unexplained_dis[0]['model']) if unexplained_dis else None),
                                    searched_inputs=searched + len(recs), seed=seed, tier=args.tier))
-        lines.append('VIOLATION property=%s replay=%s no-failing-input-found' % (pid, p))
+        lines.append('VIOLATION property=%s replay=%s no-failing-input-found' % (rid, p))
         n_viol += 1
         rc = 1
 
